@@ -346,6 +346,7 @@ func checkC12(c *Ctx) {
 	}
 	c.check("writer.delayed-exclusive-open", w.Name, w.Decl.Pos(), okW, det)
 	checkYAMLBytesBinary(c)
+	c12TomlKeyPrefix(c)
 
 	jsonImporterKeyRule(c)
 	c.expect("registry.data-encoding-concrete", 6)
@@ -411,4 +412,62 @@ func c12NoDroppedErrors(c *Ctx, f *Fn, rule string) {
 	sort.Strings(bad)
 	c.check(rule, f.Name, f.Body.Pos(), len(bad) == 0,
 		"no error on the encode/validate/write chain may be discarded (it must reach the command's exit status): "+strings.Join(bad, "; "))
+}
+
+// c12TomlKeyPrefix: rooted keys of the TOML decoder are dot-separated paths.
+// "Is key k below table t" must compare whole path components: the prefix has
+// to include the separator (t + "."), otherwise [[a.bc]] is taken to be
+// inside [[a.b]].
+func c12TomlKeyPrefix(c *Ctx) {
+	p := c.pkgOpt("encoding/toml")
+	if p == nil {
+		c.check("toml.key-prefix-includes-separator", "encoding/toml", 0, false, "anchor: package encoding/toml not loaded")
+		return
+	}
+	isRooted := func(info *types.Info, e ast.Expr) bool {
+		t := info.TypeOf(e)
+		if a, ok := t.(*types.Alias); ok && a.Obj().Name() == "rootedKey" {
+			return true
+		}
+		// fall back on the declared type of the variable or field
+		var o types.Object
+		switch x := ast.Unparen(e).(type) {
+		case *ast.Ident:
+			o = info.Uses[x]
+		case *ast.SelectorExpr:
+			o = info.Uses[x.Sel]
+		}
+		if v, ok := o.(*types.Var); ok {
+			if a, ok := v.Type().(*types.Alias); ok && a.Obj().Name() == "rootedKey" {
+				return true
+			}
+		}
+		return false
+	}
+	n := 0
+	for _, f := range c.funcs(p) {
+		info := f.Info()
+		ast.Inspect(f.Body, func(x ast.Node) bool {
+			call, ok := x.(*ast.CallExpr)
+			if !ok || calleeName(info, call) != "strings.HasPrefix" || len(call.Args) != 2 {
+				return true
+			}
+			a1 := ast.Unparen(call.Args[1])
+			base := a1
+			hasSep := false
+			if be, ok := a1.(*ast.BinaryExpr); ok && be.Op == token.ADD {
+				if v, ok := constString(info, be.Y); ok && v == "." {
+					hasSep, base = true, be.X
+				}
+			}
+			if !isRooted(info, call.Args[0]) && !isRooted(info, base) {
+				return true
+			}
+			n++
+			c.check("toml.key-prefix-includes-separator", fmt.Sprintf("%s#prefix%d", f.Name, n), call.Pos(), hasSep,
+				"a prefix test between rooted (dot-separated) keys must include the separator: strings.HasPrefix(k, t+\".\") — without it `a.bc` counts as a child of `a.b`; found "+exprString(call))
+			return true
+		})
+	}
+	c.expect("toml.key-prefix-includes-separator", 3)
 }
